@@ -129,7 +129,7 @@ def procPair (ext : Ext) (s : PState) (p : Pair) : PState :=
     match lookup key nd.opts with
     | none => s
     | some oid =>
-      let o := { s.P.opt oid with called := true, usedAlias := key }
+      let o := { s.P.opt oid with called := true, usedAlias := key, lowerKeys := (s.P.node 0).mapKeysToLower }
       match save ext (s.P.node 0).mapKeysToLower o p.args with
       | .error e => { s with P := s.P.setOpt oid o, err := some e }
       | .ok o' =>
